@@ -400,7 +400,7 @@ pub fn label_collision_module(f: usize, g: usize, k: usize) -> Module {
     let mut m = Module::default();
     let main = vec![set("_", nil()), discard(native("log3", vec![int(f as i64), call(&format!("f{f}"), vec![]), int(0)]))];
     m.functions.push(("main".into(), Function { arguments: vec![], cards: main }));
-    for i in 1..=g {
+    for i in 1..=g.max(f) {
         let cards = if i == g {
             let mut c: Vec<Card> = (0..k).map(|x| set("_", int(x as i64))).collect();
             c.push(un("ret", int(999)));
@@ -411,6 +411,39 @@ pub fn label_collision_module(f: usize, g: usize, k: usize) -> Module {
         m.functions.push((format!("f{i}"), Function { arguments: vec![], cards }));
     }
     m
+}
+
+/// a chain of nested modules m1.m2...mD, each with a function `t` that logs its level; the innermost module imports
+/// `t` (or a sibling module) from k levels up with k `super.` segments, for every k up to the depth
+pub fn deep_super_module(rng: &mut Prng) -> Module {
+    let depth = rng.range(3, 10) as usize;
+    // (the root module has no `t` and no `side`: a name that exists there would be found as an absolute path first)
+    let k = rng.range(1, depth as i64 - 1) as usize;
+    let via_module = rng.chance(1, 3);
+    // build inside out
+    let mut inner = Module::default();
+    let callee = if via_module { "side.t" } else { "t" };
+    inner.imports.push(format!("{}{}", "super.".repeat(k), if via_module { "side" } else { "t" }));
+    inner.functions.push(("run".into(), Function { arguments: vec![], cards: vec![un("ret", call(callee, vec![]))] }));
+    let mut path: Vec<String> = Vec::new();
+    for level in (0..depth).rev() {
+        // level `level` is the module that contains `inner` (root = level 0)
+        let mut m = Module::default();
+        if level > 0 {
+            m.functions.push(("t".into(), Function { arguments: vec![], cards: vec![setg("sink", native("log1", vec![int(level as i64)])), un("ret", int(level as i64))] }));
+            let mut side = Module::default();
+            side.functions.push(("t".into(), Function { arguments: vec![], cards: vec![setg("sink", native("log1", vec![int(100 + level as i64)])), un("ret", int(100 + level as i64))] }));
+            m.submodules.push(("side".into(), side));
+        }
+        let name = format!("m{}", level + 1);
+        m.submodules.push((name.clone(), inner));
+        path.insert(0, name);
+        inner = m;
+    }
+    let mut root = inner;
+    let target = format!("{}.run", path.join("."));
+    root.functions.insert(0, ("main".into(), Function { arguments: vec![], cards: vec![set("_", nil()), discard(native("log2", vec![int(k as i64), call(&target, vec![])]))] }));
+    root
 }
 
 /// functions that own nothing on the value stack (no parameters, no locals) and end in a conditional card: when the
@@ -470,11 +503,15 @@ impl Engine for ResolveEngine {
             // labels are keyed by 32-bit handles; every card gets one as well as every function. These (function,
             // big function, card) triples are the smallest ones whose handles are equal under the hash the crate
             // used at the pinned commit and under the one it uses after the repair (found by exhaustive search)
-            let (f, g, k) = *rng.pick(&[(210usize, 1003usize, 1302usize), (968, 1437, 1051)]);
+            // (the third triple has the card *before* the function: function 873's card 104 is compiled first)
+            let (f, g, k) = *rng.pick(&[(210usize, 1003usize, 1302usize), (968, 1437, 1051), (1183, 873, 104)]);
             return Case { module: label_collision_module(f, g, k), inputs: vec![], scenario: "label-handle-collision".into() };
         }
         if rng.chance(1, 20) {
             return Case { module: bare_functions_module(rng), inputs: vec![], scenario: "functions-without-parameters-or-locals".into() };
+        }
+        if rng.chance(1, 25) {
+            return Case { module: deep_super_module(rng), inputs: vec![], scenario: "long-super-chains".into() };
         }
         Case { module: gen_tree(rng), inputs: vec![], scenario: "module-tree".into() }
     }
